@@ -6,6 +6,7 @@ from ..pat import ANY, V, match, call, fld, alt, contains
 from ..pg import show_lit
 from ..idioms import as_min, closure_returns
 from .vote import is_f
+from .flow import call_blocks
 
 VR = "raft::quorum::VoteResult"
 
@@ -486,3 +487,31 @@ def group_scan(cx):
     cx.check(len(flags) == 1, "ungrouped", "meeting an entry without a group clears the single-group flag")
     n += 1
     cx.check(n >= 3, "floor", "group scan sites were found")
+
+
+@obligation("QUORUM.group_assignment", ["C11"], floor=3, kind="loop shape + pairing",
+            why="the group-commit result is computed from the labels stored in the progress map: a list of (peer, group) that is applied only in part, or applied without re-evaluating the commit index, makes the leader count groups the application did not assign")
+def group_assignment(cx):
+    f = cx.fn("Raft::assign_commit_groups")
+    g = cx.pg(f)
+    a = cx.prog.A(f)
+    ws = [s for s in cx.prog.writes.get("Progress.commit_group_id", []) if s.fn is f and "stmt" in s.data]
+    cx.check(len(ws) >= 1, "store", "assign_commit_groups stores the group into the peer's progress")
+    for s in ws:
+        v = a.expr_rvalue(s.data["stmt"]["rv"], s.at)
+        cx.check(any(x[0] == "param" for x in walk(v)) or any(x[0] == "call" and x[1].endswith("::next") for x in walk(v)), cx.site_key(s, "store:value"), "the stored group is the one listed for that peer (found %s)" % show(v)[:100], s)
+    nexts = {c.block for sp, c in cx.prog.calls_out[f.key] if c.kind == "call" and sp.endswith("::next") and "Iterator" in sp}
+    cx.check(bool(nexts), "loop", "assign_commit_groups walks the list")
+    # a peer without a progress is skipped on its own: the walk goes on with the next element
+    def untracked(l):
+        return l[0] == "in" and l[2] == frozenset(["None"]) and l[1][0] == "call" and "ProgressTracker::get" in l[1][1]
+    ok, ne = g.after_edge_must_pass(lambda lits: any(untracked(l) for l in lits), lambda b: b in nexts)
+    cx.check(ok and ne >= 1, "skip-one", "an untracked peer in the list is skipped by itself: the walk continues with the next element (no early exit)")
+    # after the walk the commit index is re-evaluated under the new labels (leader, group commit on)
+    mc = call_blocks(f, "Raft::maybe_commit")
+    def gc_on(l):
+        return l[0] == "is" and l[2] is True and l[1][0] == "call" and l[1][1].endswith("group_commit")
+    st_exprs = {l[1]: l[3] for n_ in range(len(g.nodes)) for _, ls in g.edges[n_] or [] for l in ls if l[0] == "in" and is_f(l[1], "RaftCore.state")}
+    leader = [("in", e_, frozenset(["Leader"]), adt_) for e_, adt_ in st_exprs.items()]
+    ok, ne = g.after_edge_must_pass(lambda lits: any(gc_on(l) for l in lits), lambda b: b in mc, assume=leader)
+    cx.check(ok and ne >= 1 and bool(mc), "re-evaluate", "with group commit on, the leader recomputes its commit index after the labels changed")
